@@ -48,10 +48,12 @@ class WindowMonitor(Monitor):
         wm.insert(s)
 
     def on_recv_app(self, conn, msgseq, payload):
-        for e in self.cur_msgs:
+        # _recvApp runs inside the _recv_message call of that very message: it is the entry appended last (one datagram may
+        # carry the same message twice - a resend next to a keep-alive copy - so matching by number alone is not enough)
+        if self.cur_msgs:
+            e = self.cur_msgs[-1]
             if e[0] == id(conn) and e[1] == int(msgseq) and not e[3]:
                 e[3] = True
-                return
 
     def post_recv(self, conn, hdr, datagram, pre, result):
         # an independent view of "received": a datagram that opens under the connection's key (reference AES-GCM) and is
